@@ -203,7 +203,7 @@ func runC10(r *Report, tier string) {
 			var spec *Term
 			if arm.other {
 				other := pIface("[]cbor.RawMessage", &Term{Op: "arr", S: "cbor.RawMessage", Args: []*Term{sb.pDet(pEnc(pIface("[]byte", T("var", "PSIG"))))}})
-				spec = pEnc(pIface("[]any", &Term{Op: "append", Args: []*Term{pArrAny(els...), pArrAny(other)}}))
+				spec = pEnc(pIface("[]any", pArrAny(append(append([]*Term{}, els...), other)...)))
 			} else {
 				spec = pEnc(pIface("[]any", pArrAny(els...)))
 			}
